@@ -63,6 +63,36 @@ def decorator_locks(fn: Fn) -> Tuple[str, ...]:
     return tuple(out)
 
 
+_KNOWN = None
+
+
+def fn_digest(node: ast.AST) -> str:
+    """name-independent digest of a function: its parameters and body"""
+    import hashlib
+    txt = ast.dump(node.args) + "|" + "|".join(ast.dump(b) for b in node.body)
+    return "sha1:" + hashlib.sha1(txt.encode()).hexdigest()
+
+
+def _known_functions():
+    """rel::qual of every function of the tree the rules were confirmed on (sa/helpers_ref.json, regenerated deliberately by
+    tools/gen_helpers_ref.py); missing file -> every function counts as known (no inlining)."""
+    global _KNOWN
+    if _KNOWN is None:
+        import json
+        import os
+        p = os.path.join(os.path.dirname(os.path.abspath(__file__)), "helpers_ref.json")
+        try:
+            _KNOWN = set(json.load(open(p)))
+        except Exception:  # noqa: BLE001
+            _KNOWN = _Everything()
+    return _KNOWN
+
+
+class _Everything:
+    def __contains__(self, item):
+        return True
+
+
 class _Walker:
     def __init__(self, fn: Fn):
         self.fn = fn
@@ -163,6 +193,108 @@ class _Walker:
                 self._defs.pop(k, None)
         return self._defs.get(name)
 
+    # helper procedures that the confirmed tree does not have -----------------
+    def _helper_of(self, call: ast.Call) -> Optional[Fn]:
+        """A helper that was EXTRACTED since the rules were confirmed: a closure of this function (or of an enclosing one) that is only
+        ever *called* -- never handed to anyone as a callback --, or a private method `self._name(...)` of the same class (not a
+        `*_core` template method) that is only ever called, and that sa/helpers_ref.json (the functions of the confirmed tree) does not
+        list.  Its body is read at the call site, under the caller's guards and locks: moving statements into a helper is a
+        behaviour-preserving edit and must not change what a rule sees.  Helpers the confirmed tree already has are left alone (the
+        rules were written, and confirmed instance by instance, with them in place)."""
+        f = call.func
+        h = None
+        if isinstance(f, ast.Name):
+            h = self.fn.resolve_local_def(f.id)
+            if h is None or not h.is_func or h.is_lambda or h.parent is None:
+                return None
+            scope = h.parent
+            if not (scope.is_func or scope.is_module):
+                return None
+            if scope.is_module and not f.id.startswith("_"):
+                return None
+            for n in ast.walk(scope.node):
+                if isinstance(n, ast.Name) and n.id == f.id and isinstance(n.ctx, ast.Load):
+                    par = scope.module.parents.get(n)
+                    if not (isinstance(par, ast.Call) and par.func is n):
+                        return None         # used as a value (a handler / callback): runs at another time
+        elif isinstance(f, ast.Attribute) and isinstance(f.value, ast.Name) and f.value.id == "self" and f.attr.startswith("_") \
+                and not f.attr.startswith("__") and not f.attr.endswith("_core"):
+            c = self.fn
+            while c is not None and not c.is_class:
+                c = c.parent
+            h = c.child(f.attr) if c is not None else None
+            if h is None or not h.is_func:
+                return None
+            for n in ast.walk(c.node):
+                if isinstance(n, ast.Attribute) and n.attr == f.attr and isinstance(n.ctx, ast.Load):
+                    par = c.module.parents.get(n)
+                    if not (isinstance(par, ast.Call) and par.func is n):
+                        return None
+        else:
+            return None
+        if h.ref in _known_functions() or fn_digest(h.node) in _known_functions() or h is self.fn or h in getattr(self, "_inlining", ()) or h.decorators:
+            return None                     # a helper of the confirmed tree (possibly renamed: same parameters and body)
+        if any(g.is_func or g.is_class for g in h.children):
+            return None                     # defines closures of its own: their scopes cannot be transplanted to the call site
+        if any(isinstance(x, (ast.With, ast.AsyncWith, ast.Try)) for x in ast.walk(h.node)):
+            return None                     # owns a critical section / a handler: a unit of the protocol (path rules read it whole)
+        body = list(h.node.body)
+        nested = {id(x) for g in h.children if g.is_func for x in ast.walk(g.node)}
+        own = [x for x in ast.walk(h.node) if isinstance(x, ast.Return) and id(x) not in nested]
+        if any(r is not body[-1] for r in own):
+            return None                     # early returns: control flow of its own
+        return h
+
+    @staticmethod
+    def _bind_args(h: Fn, call: ast.Call) -> List[ast.stmt]:
+        """the helper's body with its parameters replaced by the argument expressions of this call (parameters the helper
+        assigns to, and arguments that are not plain names / attributes / constants, are left alone)"""
+        import copy
+        params = [a.arg for a in h.node.args.args]
+        if params and params[0] in ("self", "cls") and isinstance(call.func, ast.Attribute):
+            params = params[1:]
+        m = {}
+        for p_, a in zip(params, call.args):
+            if isinstance(a, ast.Starred):
+                break
+            m[p_] = a
+        for k in call.keywords:
+            if k.arg in params:
+                m[k.arg] = k.value
+        stored = {x.id for x in ast.walk(h.node) if isinstance(x, ast.Name) and isinstance(x.ctx, (ast.Store, ast.Del))}
+        m = {k: v for k, v in m.items() if k not in stored and isinstance(v, (ast.Name, ast.Attribute, ast.Constant, ast.Subscript))}
+        body = [copy.deepcopy(b) for b in h.node.body]
+        if not m:
+            return body
+
+        class _S(ast.NodeTransformer):
+            def visit_Name(self, n):
+                if isinstance(n.ctx, ast.Load) and n.id in m:
+                    return copy.deepcopy(m[n.id])
+                return n
+
+            def visit_FunctionDef(self, n):
+                return n
+            visit_Lambda = visit_AsyncFunctionDef = visit_FunctionDef
+        return [_S().visit(b) for b in body]
+
+    def _inline(self, call: ast.Call, stmt: ast.stmt, ctx: Ctx) -> None:
+        h = self._helper_of(call)
+        if h is None or len(getattr(self, "_inlining", ())) >= 2:
+            return
+        self._inlining = getattr(self, "_inlining", ()) + (h,)
+        try:
+            body = self._bind_args(h, call)
+            tail = None
+            if body and isinstance(body[-1], ast.Return):
+                tail, body = body[-1], body[:-1]
+            c2 = ctx.with_(locks=ctx.locks + tuple(l for l in decorator_locks(h) if l not in ctx.locks))
+            self.block(body, c2)
+            if tail is not None and tail.value is not None:
+                self.expr(tail.value, stmt, c2)
+        finally:
+            self._inlining = self._inlining[:-1]
+
     def emit(self, node: ast.AST, stmt: ast.stmt, ctx: Ctx) -> None:
         self.out.append(Site(node, stmt, ctx, self.i, self.fn))
         self.i += 1
@@ -195,6 +327,8 @@ class _Walker:
                                 branch=cur.branch + ((id(e), f"rhs{k}"),))
             return
         self.emit(e, stmt, ctx)
+        if isinstance(e, ast.Call):
+            self._inline(e, stmt, ctx)
         # evaluation order: for a Call, func then args; generic order is fine
         for ch in ast.iter_child_nodes(e):
             if isinstance(ch, (ast.expr_context, ast.operator, ast.cmpop, ast.boolop, ast.unaryop)):
